@@ -4,6 +4,10 @@
                        `t` true, `f` false, `p` panic
                       T ::= (tpl KIND P…)   KIND ::= ref | owned | toowned | byref | lit   (all identities on parts)
                       P ::= (t xTEXT) | (h xLABEL F)      F ::= - | N   (formatter table index)
+    stream `c16_render` : (render T (props (xKEY V)…) PK FAIL) → `s=<hex of the String rendering> ev=<callbacks> r=ok|err`
+                      V ::= (s xSTR) | (i N) | (b true|false)     PK ::= slice | (and K) | erased | with   (how the harness
+                      presents the pairs; all first-wins over the list)      FAIL ::= - | N  (the recording writer fails on
+                      callback N);  callbacks: T<text> | V<label>:<value> | F<label>:<value>:<formatted> | L<label>, comma separated
 -/
 import EmitModel.Base.Sexp
 import EmitModel.Model.Template
@@ -29,11 +33,77 @@ def kindOk (k : String) (ps : List Part) : Bool :=
   | "lit" => (asLiteral ps).isSome
   | _ => false
 
+/-- The template the harness builds for `(tpl KIND P…)`, through the model of the constructor KIND names. -/
 def tpl? : Sexp → Option (List Part)
   | .list (.atom "tpl" :: .atom k :: ps) => do
     let ps ← ps.mapM part?
-    if kindOk k ps then pure ps else none
+    if !kindOk k ps then none
+    else match k, ps with
+      | "toowned", ps => pure (toOwned ps)
+      | "byref", ps => pure (byRef ps)
+      | "lit", [.text t] => pure (literal t)
+      | _, ps => pure ps
   | _ => none
+
+/-! The harness's formatter functions (harness/hcore/src/streams/c16.rs `FORMATTERS`). -/
+
+def charCount (bs : List UInt8) : Nat := bs.countP fun b => (b &&& 0xC0) != 0x80
+
+def fmtTable : Nat → Val → List UInt8
+  | 0, v => [0x5b] ++ v.display ++ [0x5d]                                        -- "[{}]"
+  | 1, v => let d := v.display; List.replicate (6 - charCount d) 0x20 ++ d       -- "{:>6}" of the displayed text
+  | _, _ => [0x23]                                                               -- "#"
+
+def val? : Sexp → Option Val
+  | .list [.atom "s", s] => s.bytes?.map Val.str
+  | .list [.atom "i", n] => n.int?.map Val.int
+  | .list [.atom "b", b] => b.bool?.map Val.bool
+  | _ => none
+
+def prop? : Sexp → Option (List UInt8 × Val)
+  | .list [k, v] => do
+    let k ← k.bytes?
+    let v ← val? v
+    pure (k, v)
+  | _ => none
+
+def props? : Sexp → Option (List (List UInt8 × Val))
+  | .list (.atom "props" :: ps) => ps.mapM prop?
+  | _ => none
+
+def propsKindOk (n : Nat) : Sexp → Bool
+  | .atom "slice" | .atom "erased" | .atom "with" => true
+  | .list [.atom "and", k] => match k.nat? with | some k => k ≤ n | none => false
+  | _ => false
+
+def failAt? : Sexp → Option (Option Nat)
+  | .atom "-" => some none
+  | s => s.nat?.map some
+
+def showEv : Ev → String
+  | .text t => "T" ++ hexOfBytes t
+  | .holeValue l v => "V" ++ hexOfBytes l ++ ":" ++ hexOfBytes v.display
+  | .holeFmt l v f => "F" ++ hexOfBytes l ++ ":" ++ hexOfBytes v.display ++ ":" ++ hexOfBytes (fmtTable f v)
+  | .holeLabel l => "L" ++ hexOfBytes l
+
+def runRender (line : String) : String :=
+  match Sexp.parse line with
+  | some (.list [.atom "render", t, ps, pk, fa]) =>
+    match tpl? t, props? ps, failAt? fa with
+    | some parts, some props, some failAt =>
+      if !propsKindOk props.length pk then "bad-op" else
+      match render (stringWriter fmtTable) props parts [] with
+      | (_, false) => "bad-op"
+      | (out, true) =>
+        let (evs, ok) := render (recWriter failAt) props parts []
+        let evs' := ",".intercalate (evs.map showEv)
+        let nh := parts.countP fun p => match p with | .hole _ _ => true | _ => false
+        let hit := parts.countP fun p => match p with | .hole l _ => (lookupFirst l props).isSome | _ => false
+        let nf := parts.countP fun p => match p with | .hole l (some _) => (lookupFirst l props).isSome | _ => false
+        let sig := if parts.isEmpty then "trivial" else s!"holes={min nh 3},hit={min hit 3},fmt={min nf 2},ok={ok}"
+        s!"s={atomOfBytes out} ev={evs'} r={if ok then "ok" else "err"}\t{sig}"
+    | _, _, _ => "bad-op"
+  | _ => "bad-op"
 
 def resChar : Res → Char
   | .ok true => 't'
@@ -56,6 +126,6 @@ def runEq (line : String) : String :=
   | _ => "bad-op"
 
 def streams : List (String × (String → String)) :=
-  [("c16_eq", runEq)]
+  [("c16_eq", runEq), ("c16_render", runRender)]
 
 end EmitModel.Driver.C16
